@@ -241,9 +241,10 @@ class Algorithm16(Algorithm06):
     def validate(self, components: list[str], expected: str) -> bool:
         [account_code] = components
         check_digit = self.compute(components)
-        if self.remainder == 1 and account_code[8] == account_code[9]:
+        position = self.positions.check_digit
+        if self.remainder == 1 and account_code[position - 2] == account_code[position - 1]:
             return True
-        return check_digit == account_code[self.positions.check_digit - 1]
+        return check_digit == account_code[position - 1]
 
 
 @register
